@@ -4,7 +4,7 @@ from fractions import Fraction as Fr
 
 from vlib import next_up, next_down
 
-AXIS_KINDS_Q = ["unit", "uniform", "geometric", "clustered", "random", "dyadic", "mesh64"]
+AXIS_KINDS_Q = ["unit", "uniform", "geometric", "clustered", "random", "dyadic", "mesh64", "evenish"]
 
 
 def axis_q(rng, n, kind=None):
@@ -36,6 +36,18 @@ def axis_q(rng, n, kind=None):
         xs = [Fr(rng.randint(-64, 64), 16)]
         for _ in range(n - 1):
             xs.append(xs[-1] + Fr(rng.randint(1, 64), 16))
+        return xs
+    if kind == "evenish" and n >= 4:
+        # an even grid whose interior points were moved: first and last point and the first step (or the last step) are those
+        # of the even grid, so "first step == mean step" holds although the axis is not evenly spaced
+        a = Fr(rng.randint(-20, 20), rng.choice([1, 2, 4]))
+        h = Fr(rng.randint(1, 9), rng.choice([1, 2, 4, 8]))
+        xs = [a + i * h for i in range(n)]
+        keep = {0, n - 1, 1} if rng.random() < 0.7 else {0, n - 1, n - 2}
+        for i in range(1, n - 1):
+            if i not in keep:
+                lo, hi = xs[i - 1], xs[i + 1]
+                xs[i] = lo + (hi - lo) * Fr(rng.randint(1, 15), 16)
         return xs
     if kind == "mesh64":
         # neighbouring interval lengths differ by factors up to 2^6
@@ -100,9 +112,20 @@ def trailing_shape(rng, max_axes=3, allow_zero=False):
 
 def axis_f(rng, n, kind=None):
     """strictly increasing list of n finite f64 with finite span and finite (n-1)/span"""
-    kind = kind or rng.choice(["unit", "uniform", "geometric", "log", "ulps", "mixed", "random"])
+    kind = kind or rng.choice(["unit", "uniform", "geometric", "log", "ulps", "mixed", "random", "evenish"])
     if kind == "unit":
         return [float(i) for i in range(n)]
+    if kind == "evenish" and n >= 4:
+        # dyadic even grid with moved interior points (first step == mean step exactly, axis not evenly spaced)
+        a = rng.randint(-64, 64) / 4.0
+        h = rng.randint(1, 32) / 8.0
+        xs = [a + i * h for i in range(n)]
+        keep = {0, n - 1, 1} if rng.random() < 0.7 else {0, n - 1, n - 2}
+        for i in range(1, n - 1):
+            if i not in keep:
+                lo, hi = xs[i - 1], xs[i + 1]
+                xs[i] = lo + (hi - lo) * rng.randint(1, 15) / 16.0
+        return xs
     if kind == "uniform":
         a = rng.uniform(-100, 100)
         h = rng.uniform(1e-3, 10)
@@ -161,39 +184,102 @@ from vlib import t_xspec, t_ndarr, t_strat, t_buf, t_vec, fq, ff, shape_size
 
 
 def i1_line(S, x, shape, flat, strat, entry, dtag="dyn", xlay="c", dlay="c"):
-    fmt = fq if S == "Q" else ff
+    fmt = fmt_of(S)
     return f"{S} i1 {dtag} {t_xspec(x, fmt, xlay)} {t_ndarr(shape, flat, fmt, dlay)} {t_strat(strat, fmt)} {entry}"
 
 
 def i2_line(S, x, y, shape, flat, ext, entry, dtag="dyn", xlay="c", ylay="c", dlay="c"):
-    fmt = fq if S == "Q" else ff
+    fmt = fmt_of(S)
     return (f"{S} i2 {dtag} {t_xspec(x, fmt, xlay)} {t_xspec(y, fmt, ylay)} "
             f"{t_ndarr(shape, flat, fmt, dlay)} {int(ext)} {entry}")
 
 
+def fi(v):
+    """protocol text of an i64"""
+    assert int(v) == v
+    return str(int(v))
+
+
+def fmt_of(S):
+    return {"Q": fq, "F": ff, "I": fi}[S]
+
+
+def axis_i(rng, n, kind=None):
+    """strictly increasing integer axis (i64 element type; magnitudes far from overflow)"""
+    kind = kind or rng.choice(["unit", "uniform", "random", "evenish", "gappy", "big", "small", "small"])
+    if kind == "unit":
+        return list(range(n))
+    if kind == "small":
+        # steps of 1..3: the mean step has a large fractional part, so integer division of span and offsets truncates visibly
+        xs = [rng.randint(-10, 10)]
+        for _ in range(n - 1):
+            xs.append(xs[-1] + rng.choice([1, 1, 2, 3]))
+        return xs
+    if kind == "uniform":
+        a, h = rng.randint(-50, 50), rng.randint(1, 9)
+        return [a + i * h for i in range(n)]
+    if kind == "gappy":
+        # mostly unit steps with one or two large gaps: the mean step truncates badly
+        xs = [rng.randint(-20, 20)]
+        for _ in range(n - 1):
+            xs.append(xs[-1] + (rng.randint(5, 40) if rng.random() < 0.25 else 1))
+        return xs
+    if kind == "big":
+        # neighbours closer than the f64 spacing at their magnitude (above 2^53)
+        b = rng.choice([2 ** 53, 2 ** 60, 1_668_400_000_000_000_000, -(2 ** 58)])
+        xs = [b + rng.randint(0, 3)]
+        for _ in range(n - 1):
+            xs.append(xs[-1] + rng.choice([1, 1, 2, 3, 100, 300]))
+        return xs
+    if kind == "evenish" and n >= 4:
+        a, h = rng.randint(-20, 20), rng.randint(2, 8)
+        xs = [a + i * h for i in range(n)]
+        for i in range(2, n - 1):
+            lo, hi = xs[i - 1] + 1, xs[i + 1] - 1
+            if lo <= hi:
+                xs[i] = rng.randint(lo, hi)
+        return xs
+    s = set()
+    while len(s) < n:
+        s.add(rng.randint(-200, 200))
+    return sorted(s)
+
+
+def queries_i(rng, xs, count, ext=False):
+    pool = list(xs)
+    for a, b in zip(xs, xs[1:]):
+        if b - a > 1:
+            pool += [a + 1, b - 1, (a + b) // 2, rng.randint(a, b)]
+    if ext:
+        span = xs[-1] - xs[0]
+        pool += [xs[0] - 1, xs[-1] + 1, xs[0] - span, xs[-1] + span, xs[0] - 3 * span - 7, xs[-1] + 2 * span + 5]
+    rng.shuffle(pool)
+    return ([xs[0], xs[-1]] + pool)[:max(count, 2)]
+
+
 def e_scalar(S, *q):
-    fmt = fq if S == "Q" else ff
+    fmt = fmt_of(S)
     return "scalar " + " ".join(fmt(v) for v in q)
 
 
 def e_single(S, *q):
-    fmt = fq if S == "Q" else ff
+    fmt = fmt_of(S)
     return "single " + " ".join(fmt(v) for v in q)
 
 
 def e_into(S, q, bufshape, lay="c"):
-    fmt = fq if S == "Q" else ff
+    fmt = fmt_of(S)
     qs = q if isinstance(q, (list, tuple)) else [q]
     return "into " + " ".join(fmt(v) for v in qs) + " " + t_buf(bufshape, lay)
 
 
 def e_array(S, qshape, *qlists, qtag="dyn", lay="c"):
-    fmt = fq if S == "Q" else ff
+    fmt = fmt_of(S)
     return f"array {qtag} " + " ".join(t_ndarr(qshape, ql, fmt, lay) for ql in qlists)
 
 
 def e_ainto(S, qshape, bufshape, *qlists, qtag="dyn", lay="c", blay="c"):
-    fmt = fq if S == "Q" else ff
+    fmt = fmt_of(S)
     return f"ainto {qtag} " + " ".join(t_ndarr(qshape, ql, fmt, lay) for ql in qlists) + " " + t_buf(bufshape, blay)
 
 
